@@ -146,7 +146,7 @@ ASSUMPTIONS = [
     "copy.deepcopy of a metadata container holding a StateVector / Cov is modelled like a pickle of it (not generated by the harness)",
     "Model/PickleReg.lean describes a Frame object by class, name, orientation name and centre name (its identity is the heap model's business; geometry of a station / the reference orbit of a local frame is compared by the oracle, not modelled); "
     "a process that never registered a name is modelled as the name being dropped from the registry",
-    "which rotations raise under the EOP 'error' policy depends on what the Date object has cached; the model takes 'the transformation raises e' as an input (setFrameBasic env) and the harness only asks for it where it does (target EME2000)",
+    "which rotations raise under the EOP 'error' policy depends on what the Date object has cached; the model takes 'the transformation raises e' as an input (setFrameBasic env) and the harness asks for it where it does on the current code: every rotation but PEF <-> ITRF (setfrx eop / eopc); the oracle tries a list of routes (STALE_ROUTES) and reports in which step the error arose",
 ]
 NOT_COVERED = [
     "maneuver objects stay shared between a copy and its original (open findings C15-*-man-object, kept on purpose by the library): the clause 'changing maneuvers of one never shows in the other' holds for the maneuver list, not for the objects in it",
@@ -903,7 +903,20 @@ FAIL_CASES = [("form", "unknown-form", True), ("frame", "unknown-frame", True), 
               ("cov.frame", "cov-eop-error", True)]
 
 
-def failing_assignment(sv, tag):
+# (via, target): under the 'error' policy the state step via -> target needs no new EOP lookup (on the current code: PEF <-> ITRF, EME2000 <-> G50;
+# TOD -> MOD did until /repo deb035a, when the nutation stopped being memoised on the text of the date) while the route of a covariance attached
+# in another frame does. Which rotations raise is the library's business: every route is tried, the one that raises must leave no trace
+STALE_ROUTES = [("TOD", "MOD"), ("PEF", "ITRF"), ("ITRF", "PEF"), ("G50", "EME2000"), ("EME2000", "G50")]
+
+
+def stale_start(spec, via):
+    """the frame the covariance is attached in: the one of the spec unless the state would not have to move to reach `via`"""
+    if spec["frame"] not in ("Hill", via):
+        return spec["frame"]
+    return "MOD" if via != "MOD" else "TEME"
+
+
+def failing_assignment(sv, tag, target=None):
     """-> (context manager, thunk) of one assignment that has to raise"""
     cur = sv._data["frame"].name
     other = "ITRF" if cur != "ITRF" else "TOD"
@@ -921,9 +934,10 @@ def failing_assignment(sv, tag):
     if tag == "eop-error":
         return eop_error_policy(), lambda: setattr(sv, "frame", eop_target)
     if tag == "eop-error-stale-parent":
-        # the state (now in TOD) can be rotated to MOD with the values cached on its Date; its covariance, attached while the state was
-        # in EME2000, has to go through EME2000 and cannot: the part of the assignment that works must not stay
-        return eop_error_policy(), lambda: setattr(sv, "frame", "MOD")
+        # the state (moved to `via` after its covariance was attached) can be taken to `target` without a new Earth-orientation lookup
+        # (polar motion reads the values cached on its Date; EME2000 <-> G50 is a constant matrix); its covariance has to go through
+        # the frame it was attached in and cannot: the part of the assignment that works must not stay
+        return eop_error_policy(), lambda: setattr(sv, "frame", target)
     if tag == "cov-unknown-frame":
         return contextlib.nullcontext(), lambda: setattr(sv.cov, "frame", "NoSuchFrame")
     if tag == "cov-to-hill":
@@ -938,14 +952,20 @@ def check_failed_change(out, rng, spec):
     Earth-orientation data under the 'error' policy; on the state and on its covariance; from whatever form the state is held in — leaves
     form, frame, metadata, covariance and the physical state as they were, and the object usable"""
     from beyond.frames.frames import get_frame
+    cases = []
     for attr, tag, exact in FAIL_CASES:
+        if tag == "eop-error-stale-parent":
+            cases += [(attr, tag, exact, r) for r in STALE_ROUTES]
+        else:
+            cases.append((attr, tag, exact, None))
+    for attr, tag, exact, route in cases:
         if tag.startswith("cov-") and not spec.get("cov"):
             continue
         if tag == "eop-error-stale-parent":
             if not spec.get("cov") or spec.get("covframe"):
                 continue
-            sv = make_state(rng, dict(spec, frame="EME2000"))
-            sv.frame = "TOD"
+            sv = make_state(rng, dict(spec, frame=stale_start(spec, route[0])))
+            sv.frame = route[0]
         else:
             sv = make_state(rng, spec)
         if tag == "from-hill":
@@ -955,11 +975,13 @@ def check_failed_change(out, rng, spec):
         before = snap_full(sv)
         ids = (id(sv._data["form"]), id(sv._data["frame"]))
         how0, c0 = attempt(lambda: cart_state(sv))
-        cm, thunk = failing_assignment(sv, tag)
+        cm, thunk = failing_assignment(sv, tag, route and route[1])
         with cm:
             how, err = attempt(thunk)
-        out.count(key=(tag, spec["form"], spec["frame"], spec["cov"], spec["orbit"]), kind="failed-change", case=tag, form=spec["form"])
+        out.count(key=(tag, route, spec["form"], spec["frame"], spec["cov"], spec["orbit"]), kind="failed-change", case=tag, form=spec["form"])
         inp = {"spec": spec, "case": tag}
+        if route:
+            inp["route"] = {"cov_attached_in": stale_start(spec, route[0]), "then_state_moved_to": route[0], "failing_assignment_frame": route[1]}
         if how == "ok":
             if tag in ("cov-eop-error", "eop-error-stale-parent"):
                 out.tally(f"{tag}-not-needed")     # e.g. local orientation -> frame of the state: no date-dependent rotation involved
@@ -969,6 +991,10 @@ def check_failed_change(out, rng, spec):
         if how == "hang":
             out.fail(f"failed-change-hangs-{tag}", f"{attr} assignment ({tag}) does not return", inp, observed=repr(err))
             continue
+        if route:
+            import traceback
+            in_cov = any(fs.filename.endswith("cov.py") for fs in traceback.extract_tb(err.__traceback__))
+            out.tally("stale-parent-raised-in-covariance-step" if in_cov else "stale-parent-raised-in-state-step")
         after = snap_full(sv)
         if ids != (id(sv._data["form"]), id(sv._data["frame"])):
             out.fail(f"failed-change-label-{tag}", f"after the failed {attr} change form/frame differ from before", inp,
@@ -2501,8 +2527,10 @@ def rand_ops(rng, maxlen=6, dcopy=True):
         elif name == "setfrx":
             # under the 'error' policy only the rotations that need the time-scale offsets of the date raise; every path to
             # (or from) EME2000 does, so the EOP failure is asked for with that target (from EME2000 itself: nothing to do)
-            mode = rng.choice(["iso", "eop"])
-            op = [name, i, rng.choice(FRAMES) if mode == "iso" else "EME2000", mode]
+            # `eopc`: any target; what raises then is decided rotation by rotation (only PEF <-> ITRF, the polar motion read from the
+            # values cached on the Date, works), so that the covariance of a state moved since it was attached fails AFTER the state
+            mode = rng.choice(["iso", "eop", "eopc"])
+            op = [name, i, rng.choice(FRAMES) if mode == "iso" else ("EME2000" if mode == "eop" else rng.choice(FRAMES + ["ITRF", "PEF"] * 3)), mode]
         elif name == "seta":
             op = [name, i, rng.choice(SET_NAMES), str(rng.randrange(10, 90))]
         elif name == "seti":
@@ -2548,6 +2576,14 @@ def correspondence(ctx):
         ops = rand_ops(rng, dcopy=True)
         kep = [rand_coord(rng) for _ in range(2)]
         cases.append((ops, kep))
+    # directed: a covariance attached in one frame, the state moved (covariance following), then under the EOP 'error' policy an assignment
+    # whose state step works and whose covariance step cannot (PEF <-> ITRF), and what the object is worth afterwards
+    for _ in range(ctx.n(40, 400)):
+        via, tgt = rng.choice([("PEF", "ITRF"), ("ITRF", "PEF")])
+        ops = [["new", "0", str(int(rng.random() < 0.4)), rng.choice(FORMS), rng.choice([f for f in FRAMES if f != via]), str(rng.choice([0, 1, 3])), str(rng.choice([0, 1])), "1", "-"],
+               ["setfr", "0", via], ["setfrx", "0", tgt, "eopc"]]
+        ops += rng.choice([[], [["setfr", "0", rng.choice(FRAMES)]], [["copy", "0"], ["setfr", "1", rng.choice(FRAMES)]], [["covfr", "0", rng.choice(FRAMES)]]])
+        cases.append((ops, [rand_coord(rng) for _ in range(2)]))
     cases = [(resolve_indices(ops, kep), kep) for ops, kep in cases]
     replies = core.Driver().run(["heap " + " ; ".join(" ".join(op) for op in ops) for ops, _ in cases])
     for (ops, kep), m in zip(cases, replies):
